@@ -119,7 +119,7 @@ Proof.
   intros u f d opts b bo t x r HB HBo WF Dom OP PP Small _ H.
   unfold redefine in H. rewrite HBo in H.
   assert (Chk : match b_fout bo with
-                | Some flt => negb (forallb (fun fld => flt_ok u flt (f_ty fld)) (fn_out f))
+                | Some flt => negb (forallb (fun fld => flt_okv u flt (f_name fld) (f_ty fld) (f_sub fld)) (fn_out f))
                 | None => false end = false).
   { unfold outputs_permitted in OP. destruct (b_fout bo) as [flt|]; [|reflexivity]. rewrite OP. reflexivity. }
   rewrite Chk in H. rewrite HB in H. unfold call_graph in H.
